@@ -58,6 +58,18 @@ theorem C27_any_order {runs₁ runs₂ : List (List Nat)} (p : runs₁.Perm runs
   have e : merge = mergeMax := by funext xs ys; exact merge_eq_max xs ys
   rw [e]; exact foldl_mergeMax_perm p init
 
+/-- `TestCoverage.Aggregate` over whole coverage objects (file name ↦ vector): any completion order of any number
+    of test runs gives the same per-file vectors, and aggregating a run twice changes nothing. -/
+theorem C27_aggregate_any_order {runs₁ runs₂ : List FMap} (p : runs₁.Perm runs₂) (init : FMap) :
+    runs₁.foldl aggF init = runs₂.foldl aggF init := foldl_aggF_perm p init
+
+theorem C27_aggregate_idem (a : FMap) : aggF a a = a := aggF_idem a
+
+/-- …and per file it is the model of `MergeCoverageLines` at the extracted operator. -/
+theorem C27_aggregate_is_merge (acc cov : FMap) (k : String) (c : List Nat) (h : cov k = some c) :
+    aggF acc cov k = some (merge ((acc k).getD []) c) := by
+  simp [aggF, h, merge_eq_max]
+
 /-- "Best" is with respect to the enum order Covered > Uncovered > Unreachable > NotExecutable. -/
 theorem C27_enum_order : C27.enumOrder.idxOf "Covered" > C27.enumOrder.idxOf "Uncovered" ∧
     C27.enumOrder.idxOf "Uncovered" > C27.enumOrder.idxOf "Unreachable" ∧
